@@ -221,7 +221,14 @@ def file_flags_to_mode(flags):
     """Convert file's open() flags into a readable string.
     Used by Process.open_files().
     """
-    modes_map = {os.O_RDONLY: 'r', os.O_WRONLY: 'w', os.O_RDWR: 'w+'}
+    modes_map = {
+        os.O_RDONLY: 'r',
+        os.O_WRONLY: 'w',
+        os.O_RDWR: 'w+',
+        # Linux also accepts access mode 3 ("no read/write, ioctl only"
+        # but the file must be both readable and writable).
+        os.O_WRONLY | os.O_RDWR: 'w+',
+    }
     mode = modes_map[flags & (os.O_RDONLY | os.O_WRONLY | os.O_RDWR)]
     if flags & os.O_APPEND:
         mode = mode.replace('w', 'a', 1)
